@@ -685,9 +685,15 @@ func genDefault(r *lib.RNG, c *Col, allowEnum bool) {
 
 // intCols returns the plain (not generated) integer columns: operands of generated expressions, defaults and checks
 func intCols(t *Table) []Col {
+	fk := map[string]bool{} // a foreign-key column may not feed a generated column
+	for _, f := range t.FKs {
+		for _, c := range f.Cols {
+			fk[c] = true
+		}
+	}
 	var o []Col
 	for _, c := range t.Cols {
-		if c.Ty.Kind == "int" && c.Gen == nil {
+		if c.Ty.Kind == "int" && c.Gen == nil && !fk[c.Name] {
 			o = append(o, c)
 		}
 	}
@@ -701,16 +707,19 @@ func genArith(r *lib.RNG, c Col) (string, string) {
 	return "(" + qid(c.Name) + " " + op + " " + n + ")", qid(c.Name) + op + n
 }
 
+// rawq quotes an identifier the way CHECK expressions are printed: backticks around the name, NOT doubled inside
+func rawq(s string) string { return "`" + s + "`" }
+
 func genCond(r *lib.RNG, cs []Col) (string, string) {
 	atom := func() (string, string) {
 		c := lib.Pick(r, cs)
 		if r.Chance(1, 5) {
 			lo, hi := itoa(r.Range(0, 5)), itoa(r.Range(6, 90))
-			return "(" + qid(c.Name) + " BETWEEN " + lo + " AND " + hi + ")", qid(c.Name) + " between " + lo + " and " + hi
+			return "(" + rawq(c.Name) + " BETWEEN " + lo + " AND " + hi + ")", qid(c.Name) + " between " + lo + " and " + hi
 		}
 		op := lib.Pick(r, []string{"<", ">", "<=", ">=", "="})
 		n := itoa(r.Range(0, 200))
-		return "(" + qid(c.Name) + " " + op + " " + n + ")", qid(c.Name) + " " + op + " " + n
+		return "(" + rawq(c.Name) + " " + op + " " + n + ")", qid(c.Name) + " " + op + " " + n
 	}
 	a, as := atom()
 	if r.Chance(1, 3) {
@@ -1035,10 +1044,17 @@ func sigOf(cs *caseT, what string) string {
 		return cs.Tag + "/" + what
 	}
 	if cs.T != nil {
-		if len(cs.T.Checks) > 0 {
+		if len(cs.T.Checks) > 0 || cs.T.Comment != "" || len(cs.T.PK) > 1 {
 			for _, c := range cs.T.Cols {
 				if c.Gen != nil && !c.Gen.Stored {
-					return "virtual-column-hides-check-constraints"
+					return "virtual-column-hides-checks-and-table-comment"
+				}
+			}
+		}
+		for _, k := range cs.T.Checks {
+			for _, c := range cs.T.Cols {
+				if strings.Contains(c.Name, "`") && strings.Contains(k.Expr, rawq(c.Name)) {
+					return "check-expression-identifier-backtick-unescaped"
 				}
 			}
 		}
@@ -1099,7 +1115,7 @@ func run(c *lib.Ctx, cs caseT) {
 		id = c.CaseNoModel(cs, key)
 		c.Count("table_nomodel_" + cs.Tag)
 	} else if cs.Kind == "table" {
-		id = c.Case(lib.CoqTuple(coqTable(cs.T), lib.CoqStr(text1)), cs, key)
+		id = c.Case("(CTable "+coqTable(cs.T)+" "+lib.CoqStr(text1)+")", cs, key)
 		c.Count(fmt.Sprintf("table_cols_%d", len(cs.T.Cols)))
 		c.Count(fmt.Sprintf("table_idx_%d", len(cs.T.Idx)))
 		c.Count(fmt.Sprintf("table_fks_%d", len(cs.T.FKs)))
@@ -1115,6 +1131,12 @@ func run(c *lib.Ctx, cs caseT) {
 				c.Count("column_collation")
 			}
 		}
+	} else if cs.ObjName != "" && cs.ObjText != "" {
+		id = c.Case("(CView "+lib.CoqStr(cs.ObjName)+" "+lib.CoqStr(cs.ObjText)+" "+lib.CoqStr(text1)+")", cs, key)
+		c.Count("object_" + cs.Tag)
+	} else if cs.ObjName != "" {
+		id = c.Case("(CEcho "+lib.CoqStr(cs.ObjName)+" "+lib.CoqStr(cs.Create)+" "+lib.CoqStr(text1)+")", cs, key)
+		c.Count("object_" + cs.Tag)
 	} else {
 		id = c.CaseNoModel(cs, key)
 		c.Count("object_" + cs.Tag)
@@ -1175,18 +1197,24 @@ func genObject(r *lib.RNG) caseT {
 		if strings.Contains(name, "`") {
 			tag = "view-name-backtick"
 		}
-		return objectCase(tag, base, "CREATE VIEW "+qid(name)+" AS "+sel, "SHOW CREATE VIEW "+qid(name), "DROP VIEW "+qid(name), 1,
+		oc := objectCase(tag, base, "CREATE VIEW "+qid(name)+" AS "+sel, "SHOW CREATE VIEW "+qid(name), "DROP VIEW "+qid(name), 1,
 			[]string{"SELECT * FROM " + qid(name) + " ORDER BY 1, 2"})
+		oc.ObjName, oc.ObjText = strings.ToLower(name), sel // the view registry stores the name lower-cased
+		return oc
 	case 1:
 		body := lib.Pick(r, []string{"SET NEW.d = NEW.a + 1", "SET NEW.c = concat(NEW.c, 'it''s')", "INSERT INTO lg VALUES (NEW.a, 'x y')",
 			"BEGIN SET NEW.d = 5; INSERT INTO lg VALUES (NEW.a, NEW.c); END"})
-		return objectCase("trigger", base, "CREATE TRIGGER "+qid(name)+" BEFORE INSERT ON b FOR EACH ROW "+body, "SHOW CREATE TRIGGER "+qid(name),
+		oc := objectCase("trigger", base, "CREATE TRIGGER "+qid(name)+" BEFORE INSERT ON b FOR EACH ROW "+body, "SHOW CREATE TRIGGER "+qid(name),
 			"DROP TRIGGER "+qid(name), 2, []string{"INSERT INTO b VALUES (7, 'q', 1)", "SELECT * FROM b ORDER BY 1", "SELECT * FROM lg ORDER BY 1", "DELETE FROM b WHERE a = 7", "DELETE FROM lg"})
+		oc.ObjName = name
+		return oc
 	default:
 		body := lib.Pick(r, []string{"SELECT x + 1", "BEGIN SELECT x * 2 AS `d b`; END", "BEGIN DECLARE y INT DEFAULT 3; SELECT concat('it''s', x + y); END",
 			"BEGIN IF x > 1 THEN SELECT 'big'; ELSE SELECT 'small'; END IF; END"})
-		return objectCase("procedure", base, "CREATE PROCEDURE "+qid(name)+"(x INT) "+body, "SHOW CREATE PROCEDURE "+qid(name),
+		oc := objectCase("procedure", base, "CREATE PROCEDURE "+qid(name)+"(x INT) "+body, "SHOW CREATE PROCEDURE "+qid(name),
 			"DROP PROCEDURE "+qid(name), 2, []string{"CALL " + qid(name) + "(1)", "CALL " + qid(name) + "(5)"})
+		oc.ObjName = name
+		return oc
 	}
 }
 
@@ -1202,7 +1230,16 @@ func corpus(r *lib.RNG) []caseT {
 		i(&Table{Name: "t", Coll: def, Cols: []Col{{Name: "h", Ty: Type{Kind: "enum", Vals: []string{"a", "b"}}, Null: true, Def: &Dflt{Kind: "quoted", S: "b"}}}}, nil),
 		objectCase("set-default-printed-as-bitmask", nil, "CREATE TABLE t (s SET('2','1') DEFAULT '2')", "SHOW CREATE TABLE t", "DROP TABLE t", 1, []string{"INSERT INTO t VALUES ()", "SELECT * FROM t"}),
 		objectCase("enum-value-backslash-unescaped", nil, "CREATE TABLE t (e ENUM('a\\\\b','c'))", "SHOW CREATE TABLE t", "DROP TABLE t", 1, []string{"INSERT INTO t VALUES ('a\\\\b')", "SELECT * FROM t"}),
-		objectCase("view-name-backtick", []string{"CREATE TABLE b (a INT)"}, "CREATE VIEW `v``w` AS select a from b", "SHOW CREATE VIEW `v``w`", "DROP VIEW `v``w`", 1, []string{"SELECT * FROM `v``w`"}),
+		func() caseT {
+			oc := objectCase("view-name-backtick", []string{"CREATE TABLE b (a INT)"}, "CREATE VIEW `v``w` AS select a from b", "SHOW CREATE VIEW `v``w`", "DROP VIEW `v``w`", 1, []string{"SELECT * FROM `v``w`"})
+			oc.ObjName, oc.ObjText = "v`w", "select a from b"
+			return oc
+		}(),
+		func() caseT {
+			oc := objectCase("view-name-backtick", []string{"CREATE TABLE b (a INT)"}, "CREATE VIEW `o````` AS select a from b", "SHOW CREATE VIEW `o`````", "DROP VIEW `o`````", 1, []string{"SELECT * FROM `o`````"})
+			oc.ObjName, oc.ObjText = "o``", "select a from b"
+			return oc
+		}(),
 		func() caseT {
 			cs := i(&Table{Name: "t", Coll: def, Cols: []Col{{Name: "a", Ty: Type{Kind: "int", Sub: "tinyint"}, Auto: true}}, PK: []string{"a"}, AutoInc: "98756"}, nil)
 			cs.NoModel, cs.Tag = true, "autoinc-beyond-column-range"
@@ -1213,6 +1250,26 @@ func corpus(r *lib.RNG) []caseT {
 		i(&Table{Name: "cd2", Coll: "latin1_bin", Cols: []Col{{Name: "a", Ty: Type{Kind: "char", N: "3", Coll: "latin1_swedish_ci"}, Null: true}, {Name: "e", Ty: Type{Kind: "enum", Vals: []string{"x", "y"}, Coll: "latin1_swedish_ci"}, Null: true}}}, nil),
 		// comments with double quote, LF, CR, NUL
 		i(&Table{Name: "cm1", Coll: def, Comment: "t\"q\"\n\r\x00z", Cols: []Col{{Name: "a", Ty: Type{Kind: "int", Sub: "int"}, Null: true, Comment: "c\"\n\r\x00'\\"}}}, nil),
+		// known finding: a VIRTUAL generated column makes SHOW CREATE TABLE drop the CHECK constraints
+		i(&Table{Name: "vc", Coll: def, Cols: []Col{intc("a"), {Name: "e", Ty: Type{Kind: "int", Sub: "int"}, Null: true, Gen: &Gen{Expr: "(`a` * 2)", SQL: "a * 2"}}},
+			Checks: []Check{{Name: "zc", Expr: "(`a` < 10)", SQL: "a < 10", Enforced: true}}}, nil),
+		// known finding: CHECK expressions print identifiers without doubling backticks
+		i(&Table{Name: "cb", Coll: def, Cols: []Col{intc("a`b")}, Checks: []Check{{Name: "zc", Expr: "(`a`b` < 10)", SQL: "`a``b` < 10", Enforced: true}}}, nil),
+		i(&Table{Name: "vp", Coll: def, PK: []string{"b", "a"}, Cols: []Col{{Name: "a", Ty: Type{Kind: "int", Sub: "int"}}, {Name: "b", Ty: Type{Kind: "int", Sub: "int"}},
+			{Name: "e", Ty: Type{Kind: "int", Sub: "int"}, Null: true, Gen: &Gen{Expr: "(`a` * 2)", SQL: "a * 2"}}}}, nil),
+		i(&Table{Name: "vm", Coll: def, Comment: "lost", Cols: []Col{intc("a"), {Name: "e", Ty: Type{Kind: "int", Sub: "int"}, Null: true, Gen: &Gen{Expr: "(`a` * 2)", SQL: "a * 2"}}}}, nil),
+		// checks, generated columns, expression / bit / binary defaults
+		i(&Table{Name: "nf", Coll: def, Cols: []Col{intc("a"), intc("x y"),
+			{Name: "d", Ty: Type{Kind: "int", Sub: "int"}, Null: true, Gen: &Gen{Expr: "(`a` + `x y`)", SQL: "a + `x y`", Stored: true}, Comment: "g"},
+			{Name: "g", Ty: Type{Kind: "int", Sub: "int"}, Null: true, Def: &Dflt{Kind: "expr", S: "(`a` + 1)", Raw: "(a + 1)"}},
+			{Name: "i", Ty: Type{Kind: "bit", N: "5"}, Null: true, Def: &Dflt{Kind: "bit", S: "101", Raw: "b'00101'"}},
+			{Name: "j", Ty: Type{Kind: "binary", N: "5"}, Null: true, Def: &Dflt{Kind: "hex", S: "6162630000", Raw: "'abc'"}},
+			{Name: "k", Ty: Type{Kind: "varbinary", N: "4"}, Null: true, Def: &Dflt{Kind: "hex", S: "00FF", Raw: "0x00ff"}},
+			{Name: "l", Ty: Type{Kind: "bit", N: "64"}, Null: true, Def: &Dflt{Kind: "bit", S: strings.Repeat("1", 64), Raw: "18446744073709551615"}}},
+			Checks: []Check{{Name: "zc", Expr: "(`a` < 10)", SQL: "a < 10", Enforced: true},
+				{Name: "ac", Expr: "((`x y` > 0) OR (`a` = 3))", SQL: "`x y` > 0 or a = 3", Enforced: true},
+				{Name: "ne", Expr: "(`a` >= 2)", SQL: "a >= 2", Enforced: false}}}, nil),
+		i(&Table{Name: "ehex", Coll: def, Cols: []Col{{Name: "l", Ty: Type{Kind: "varbinary", N: "4"}, Null: true, Def: &Dflt{Kind: "hex", S: "", Raw: "''"}}}}, nil),
 		// ordinary fixed cases
 		i(&Table{Name: "we`ird name", Coll: def, Comment: "a\\b\"c'd\n",
 			Cols: []Col{{Name: "a b", Ty: Type{Kind: "int", Sub: "bigint", Uns: true}, Auto: true, Comment: "it's \"q\" \\ z"},
